@@ -79,3 +79,51 @@ fn k_subject2_async__last_item_on_completion() {
   assert!(l1.is(&[EV_N | b as u32, EV_C]), "subject.async: only the last item, on completion");
   kani::cover!(true, "harness reaches its end");
 }
+
+// re-entrancy: a second observer joins from inside the first observer's next callback while v is being multicast: it must be
+// handed v (the latest value at that moment), exactly once
+#[kani::proof]
+#[kani::unwind(4)]
+fn k_subject2_behavior__join_inside_next() {
+  let sbj = subjects::BehaviorSubject::<u8>::new(0);
+  let l1 = Log::new();
+  let l2 = Log::new();
+  let me: &'static Slot<subjects::BehaviorSubject<'static, u8>> = Slot::new();
+  me.set(sbj.clone());
+  let _s1 = sbj.observable().subscribe(
+    move |x: u8| {
+      l1.push(EV_N | x as u32);
+      if x == 5 {
+        if let Some(b) = me.get() {
+          attach_o(&b.observable(), l2);
+        }
+      }
+    },
+    move |e: RxError| l1.push(EV_E | err_id(&e)),
+    move || l1.push(EV_C),
+  );
+  sbj.next(5);
+  assert!(l1.is(&[EV_N, EV_N | 5]), "subject.behavior: first observer trace differs");
+  assert!(l2.is(&[EV_N | 5]), "subject.behavior: an observer joining while 5 is being multicast must be handed the latest value (5) exactly once");
+  kani::cover!(true, "harness reaches its end");
+}
+
+// two observers attached through the SAME Observable handle of a ReplaySubject; the first one leaves; the second must keep
+// receiving and the first must be gone from the underlying subject
+#[kani::proof]
+#[kani::unwind(4)]
+fn k_subject2_replay__shared_handle_one_leaves() {
+  let sbj = subjects::ReplaySubject::<u8>::new();
+  let o = sbj.observable();
+  let l1 = Log::new();
+  let l2 = Log::new();
+  let s1 = attach_o(&o, l1);
+  let s2 = attach_o(&o, l2);
+  s1.unsubscribe();
+  let x: u8 = kani::any();
+  sbj.next(x);
+  assert!(s2.is_subscribed(), "subject.replay: the remaining observer's subscription ended when another observer left");
+  assert!(l1.len() == 0, "subject.unsubscribe: an unsubscribed observer received a later event");
+  assert!(l2.is(&[EV_N | x as u32]), "subject.replay: the remaining observer lost an item after another observer (same Observable handle) left");
+  kani::cover!(true, "harness reaches its end");
+}
